@@ -4,6 +4,7 @@
 From Coq Require Import ZArith List Bool.
 Import ListNotations.
 From Cffi Require Import C33.Spec C33.Gen C33.Model C33.Proofs C12.Gen C12.Model C12.Proofs2.
+From Cffi Require C12.Spec C12.Proofs C33.Proofs2.
 Local Open Scope Z_scope.
 
 (* SCOPE.  The property's main clause — "the library returned by ffi.verify(), with either engine,
@@ -18,9 +19,12 @@ Local Open Scope Z_scope.
      - integer result conversion (C33_from_c_int_id);
      - struct layout acceptance and result of both routes (C33_struct_routes_agree,
        C33_partial_same_call, C33_partial_size_mismatch).
-   Not modelled at all (correspondence only): the generic engine's conversions (libffi call
-   path of the backend, properties C03/C13), function results, global variables, constants,
-   non-integer conversions and TypeError cases. *)
+     - integer constants through all three routes (C33_int_constant_routes_agree): the generic
+       engine's C getter + Python fix-up, the CPython engine's _cffi_from_c_int_const, and the
+       set_source() route (C12.lib_constant) all give the constant's value.
+   Not modelled at all (correspondence only): the generic engine's argument/result conversions
+   (libffi call path of the backend, properties C03/C13), function results, global variables,
+   non-integer constants, non-integer conversions and TypeError cases. *)
 
 (* integer arguments, CPython engine: for every C integer type of 1, 2, 4 or 8 bytes, signed or
    unsigned, and EVERY Python int v: the generated conversion accepts v iff v is in the range
@@ -110,3 +114,31 @@ Example C33_example :
   verify_checked_struct false false [mkfdecl 4 4; mkfdecl 8 8] (mkreport [mkfrep 8 4; mkfrep 0 8] 16 8)
     = VErr VerificationError.
 Proof. vm_compute. repeat split; reflexivity. Qed.
+
+(* integer constants, all three routes.  X is a C integer constant expression of promoted type T (int, unsigned,
+   long, unsigned long — C12.Spec) with value c.
+     generic engine   vgen_const c = vgen_load_fixup (vgen_out_value c) (vgen_return c):  the generated C function
+                      stores (long long)(X) and returns (X) <= 0; _load_constant adds 2^64 to a negative value that
+                      the C side did not report as <= 0       (Gen.v, regenerated from vengine_gen.py)
+     CPython engine   vcpy_const c = _cffi_from_c_int_const(X)  (Gen.v, regenerated from vengine_cpy.py)
+     set_source()     C12.lib_constant KMacro T c None           (C12, `#define X ...`)
+   All three are c. *)
+Theorem C33_int_constant_routes_agree : forall T c, C12.Proofs.promoted T -> C12.Spec.in_range T c ->
+  C33.Proofs2.vgen_const c = c /\ C33.Proofs2.vcpy_const c = c /\
+  lib_constant KMacro T c None = Some (Ok c).
+Proof. exact C33.Proofs2.int_constant_routes_agree. Qed.
+Print Assumptions C33_int_constant_routes_agree.
+
+(* both engines are the identity on the whole range [-2^63, 2^64) that a C integer constant can take *)
+Theorem C33_vgen_const_id : forall c, - 2 ^ 63 <= c < 2 ^ 64 -> C33.Proofs2.vgen_const c = c.
+Proof. exact C33.Proofs2.vgen_const_id. Qed.
+Print Assumptions C33_vgen_const_id.
+
+Theorem C33_vcpy_const_id : forall c, - 2 ^ 63 <= c < 2 ^ 64 -> C33.Proofs2.vcpy_const c = c.
+Proof. exact C33.Proofs2.vcpy_const_id. Qed.
+Print Assumptions C33_vcpy_const_id.
+
+(* non-vacuity, and why the fix-up is there: ULLONG_MAX is stored as -1 by the C side *)
+Example C33_vgen_needs_fixup :
+  vgen_out_value (2 ^ 64 - 1) = -1 /\ C33.Proofs2.vgen_const (2 ^ 64 - 1) = 2 ^ 64 - 1 /\ C33.Proofs2.vgen_const (-1) = -1.
+Proof. exact C33.Proofs2.vgen_needs_fixup. Qed.
